@@ -70,23 +70,40 @@ static long do_pop(void)
 	h = vrt_h_call(OP_POP, 0, 0);
 	if (kind == 0) {
 		struct cds_wfs_node *n;
+		int api2 = (int)vrt_param("api2", 0), with_state = 1;
 
-		if (sync_mode == 0)
+		/* api2: the same operations through the other exported entry points (1: variants without state, 2: the caller takes
+		 * the library's pop mutex itself with cds_wfs_pop_lock / unlock around the __ variant) */
+		if (sync_mode == 0 && api2 == 2) {
+			cds_wfs_pop_lock(&ws);
+			n = __cds_wfs_pop_with_state_blocking(&ws, &state);
+			cds_wfs_pop_unlock(&ws);
+		} else if (sync_mode == 0 && api2 == 1) {
+			n = cds_wfs_pop_blocking(&ws);
+			with_state = 0;
+		} else if (sync_mode == 0)
 			n = cds_wfs_pop_with_state_blocking(&ws, &state);
 		else if (vrt_param("nonblocking", 0))
-			n = __cds_wfs_pop_with_state_nonblocking(&ws, &state);
+			n = api2 ? (with_state = 0, __cds_wfs_pop_nonblocking(&ws)) : __cds_wfs_pop_with_state_nonblocking(&ws, &state);
 		else
-			n = __cds_wfs_pop_with_state_blocking(&ws, &state);
+			n = api2 ? (with_state = 0, __cds_wfs_pop_blocking(&ws)) : __cds_wfs_pop_with_state_blocking(&ws, &state);
+		VRT_CHECK(n != CDS_WFS_WOULDBLOCK || (sync_mode != 0 && vrt_param("nonblocking", 0)),
+			  "a blocking pop returned CDS_WFS_WOULDBLOCK");
 		if (n == CDS_WFS_WOULDBLOCK)
 			id = WB;
 		else if (n) {
 			id = caa_container_of(n, struct item, w)->id;
-			st = !!(state & CDS_WFS_STATE_LAST);
+			if (with_state)
+				st = !!(state & CDS_WFS_STATE_LAST);
 		}
 	} else if (kind == 1) {
 		struct cds_lfs_node *n;
 
-		if (sync_mode == 0)
+		if (sync_mode == 0 && vrt_param("api2", 0) == 2) {
+			cds_lfs_pop_lock(&ls);
+			n = __cds_lfs_pop(&ls);
+			cds_lfs_pop_unlock(&ls);
+		} else if (sync_mode == 0)
 			n = cds_lfs_pop_blocking(&ls);
 		else
 			n = __cds_lfs_pop(&ls);
@@ -112,7 +129,12 @@ static long do_pop_all(void)
 		struct cds_wfs_head *hd;
 		struct cds_wfs_node *n;
 
-		hd = sync_mode == 0 ? cds_wfs_pop_all_blocking(&ws) : __cds_wfs_pop_all(&ws);
+		if (sync_mode == 0 && vrt_param("api2", 0) == 2) {
+			cds_wfs_pop_lock(&ws);
+			hd = __cds_wfs_pop_all(&ws);
+			cds_wfs_pop_unlock(&ws);
+		} else
+			hd = sync_mode == 0 ? cds_wfs_pop_all_blocking(&ws) : __cds_wfs_pop_all(&ws);
 		cds_wfs_for_each_blocking(hd, n) {
 			enc = enc * 8 + caa_container_of(n, struct item, w)->id;
 			if (++cnt > 6)
@@ -122,7 +144,12 @@ static long do_pop_all(void)
 		struct cds_lfs_head *hd;
 		struct cds_lfs_node *n;
 
-		hd = sync_mode == 0 ? cds_lfs_pop_all_blocking(&ls) : __cds_lfs_pop_all(&ls);
+		if (sync_mode == 0 && vrt_param("api2", 0) == 2) {
+			cds_lfs_pop_lock(&ls);
+			hd = __cds_lfs_pop_all(&ls);
+			cds_lfs_pop_unlock(&ls);
+		} else
+			hd = sync_mode == 0 ? cds_lfs_pop_all_blocking(&ls) : __cds_lfs_pop_all(&ls);
 		cds_lfs_for_each(hd, n) {
 			enc = enc * 8 + caa_container_of(n, struct item, l)->id;
 			if (++cnt > 6)
